@@ -116,6 +116,43 @@ type L2 struct {
 	N string `hcl:"n,label"` // label fields need not be adjacent
 }
 
+// Block body types with 3, 4 and 5 labels (json/structure.go accumulates the
+// labels of a block level by level in one slice; 4 is the first count at which
+// a grown slice has spare capacity).
+type L3 struct {
+	A string `hcl:"a,label"`
+	B string `hcl:"b,label"`
+	C string `hcl:"c,label"`
+	X string `hcl:"x,optional"`
+}
+type L4 struct {
+	A string `hcl:"a,label"`
+	B string `hcl:"b,label"`
+	X string `hcl:"x,optional"`
+	C string `hcl:"c,label"`
+	D string `hcl:"d,label"`
+}
+type L5 struct {
+	A string `hcl:"a,label"`
+	B string `hcl:"b,label"`
+	C string `hcl:"c,label"`
+	D string `hcl:"d,label"`
+	E string `hcl:"e,label"`
+	X string `hcl:"x,optional"`
+}
+
+// Sib: repeated ("sibling") blocks of one type with 1..5 labels each, as
+// []struct and []*struct, between two attributes.
+type Sib struct {
+	A  int    `hcl:"a,optional"`
+	B1 []L1   `hcl:"b1,block"`
+	B2 []*L2  `hcl:"b2,block"`
+	B3 []L3   `hcl:"b3,block"`
+	B4 []*L4  `hcl:"b4,block"`
+	B5 []L5   `hcl:"b5,block"`
+	Z  string `hcl:"z,optional"`
+}
+
 // Holder: every block field shape for one body type, between two attributes.
 type Holder[T any] struct {
 	A     int    `hcl:"a,optional"`
@@ -164,4 +201,8 @@ var types = map[string]reflect.Type{
 	"WrapL1":  reflect.TypeOf(Wrap[L1]{}),
 	"WrapL2":  reflect.TypeOf(Wrap[L2]{}),
 	"WrapMid": reflect.TypeOf(Wrap[Mid]{}),
+	"Sib":     reflect.TypeOf(Sib{}),
+	"WrapL3":  reflect.TypeOf(Wrap[L3]{}),
+	"WrapL4":  reflect.TypeOf(Wrap[L4]{}),
+	"WrapL5":  reflect.TypeOf(Wrap[L5]{}),
 }
